@@ -1011,6 +1011,10 @@ func (g *genCtx) simple() Stmt {
 		d := &Del{M: m, Keys: g.keysFor(m, false)}
 		if r.Intn(3) == 0 {
 			d.After = ev.PickOne(r, []time.Duration{time.Hour, 90 * time.Minute, 30 * time.Second, 24 * time.Hour})
+			if g.o.Fmt && r.Intn(3) == 0 {
+				// durations that are not a whole number of seconds
+				d.After = ev.PickOne(r, []time.Duration{1500 * time.Millisecond, 2*time.Minute + 250*time.Millisecond, 500 * time.Millisecond, time.Hour + time.Millisecond, 1001 * time.Millisecond})
+			}
 			g.f("del-after")
 		} else {
 			g.f("del")
